@@ -146,6 +146,7 @@ func Minimise(t *testing.T, bind *Binding, c *Case, job *Job, same func([]model.
 			func(x *sdl.Instance) { x.Kind = "" },
 			func(x *sdl.Instance) { x.Order = 0 },
 			func(x *sdl.Instance) { x.InitLookups = nil },
+			func(x *sdl.Instance) { x.Prewired = false },
 		} {
 			cand := cloneCase(best)
 			x := cand.Prog.Instances[i]
